@@ -14,6 +14,7 @@
      e_pin k      whether the k-th Cluster.Pin call succeeds
    Destination 0 is the local peer (peer.ID ""), real peers are >= 1. *)
 From V Require Import Base.Common.
+From Coq Require Import MSets.MSetPositive.
 Open Scope N_scope.
 
 Inductive cid := CData (n : N) | CNode (ls : list cid).
@@ -127,8 +128,10 @@ Definition dag_root (ml : N) (links : list cid) : cid :=
 (* ---- adder/sharding/shard.go ---- *)
 Record shard := mkshard { sh_allocs : list N; sh_ba : list N; sh_links : list N; sh_size : N }.
 
-Record sst := mksst { added : list N; cur : option shard; prev : option cid; shards : list cid; sio : io }.
-Definition sst0 : sst := mksst [] None None [] io0.
+(* addedSet is a set of CIDs (cid.Set): any set implementation; keys are N.succ_pos of the block index *)
+Definition key (c : N) : positive := N.succ_pos c.
+Record sst := mksst { added : PositiveSet.t; cur : option shard; prev : option cid; shards : list cid; sio : io }.
+Definition sst0 : sst := mksst PositiveSet.empty None None [] io0.
 
 Definition set_io (st : sst) (s : io) : sst := mksst (added st) (cur st) (prev st) (shards st) s.
 Definition set_cur (st : sst) (c : option shard) (s : io) : sst := mksst (added st) c (prev st) (shards st) s.
@@ -206,8 +209,8 @@ Fixpoint ingest (fuel : nat) (e : env) (b : block) (st : sst) : option err * sst
 
 (* DAGService.Add: addedSet.Visit, then ingest *)
 Definition shard_add (e : env) (b : block) (st : sst) : option err * sst :=
-  if memN (bcid b) (added st) then (None, st)
-  else ingest 2 e b (mksst (bcid b :: added st) (cur st) (prev st) (shards st) (sio st)).
+  if PositiveSet.mem (key (bcid b)) (added st) then (None, st)
+  else ingest 2 e b (mksst (PositiveSet.add (key (bcid b)) (added st)) (cur st) (prev st) (shards st) (sio st)).
 
 (* DAGService.Finalize *)
 Definition shard_finalize (e : env) (root : N) (st : sst) : result * sst :=
